@@ -24,6 +24,7 @@ import (
 
 	sdkmath "cosmossdk.io/math"
 	tmproto "github.com/cometbft/cometbft/proto/tendermint/types"
+	storetypes "github.com/cosmos/cosmos-sdk/store/types"
 	sdk "github.com/cosmos/cosmos-sdk/types"
 	authtypes "github.com/cosmos/cosmos-sdk/x/auth/types"
 
@@ -179,7 +180,13 @@ func runC13(t *testing.T, in c13Input) c13Obs {
 	ik := w.app.InflationKeeper
 	if in.Period == nil || in.Skipped == nil {
 		// a module store in which the sequences were never written: empty the whole store
-		store := ctx.KVStore(w.app.GetKey(inflationtypes.StoreKey))
+		var key storetypes.StoreKey
+		for _, k := range w.app.GetStoreKeys() {
+			if k.Name() == inflationtypes.StoreKey {
+				key = k
+			}
+		}
+		store := ctx.KVStore(key)
 		var keys [][]byte
 		it := store.Iterator(nil, nil)
 		for ; it.Valid(); it.Next() {
